@@ -21,7 +21,9 @@ def check(module, cinit, init, inv, length, timeout=900):
            "--out-dir=" + out, module + ".tla"]
     t0 = time.time()
     try:
-        p = subprocess.run(cmd, cwd=tlc.SPEC, capture_output=True, text=True, timeout=timeout)
+        # (the parser's temporary module copies go into the run's own output directory, which is removed below)
+        p = subprocess.run(cmd, cwd=tlc.SPEC, capture_output=True, text=True, timeout=timeout,
+                           env=dict(os.environ, JVM_ARGS=(os.environ.get("JVM_ARGS", "") + " -Djava.io.tmpdir=" + out).strip()))
     except subprocess.TimeoutExpired:
         shutil.rmtree(out, ignore_errors=True)
         raise tlc.TLCError("apalache timed out: %s" % " ".join(cmd))
